@@ -18,8 +18,62 @@ func init() {
 }
 
 func entryFieldLoad(v ssa.Value, field string) bool {
+	// a field of an Entry value (a by-value parameter of a helper)
+	if fl, ok := v.(*ssa.Field); ok {
+		if st := derefStruct(fl.X.Type()); st != nil && namedTypeName(fl.X.Type()) == "Entry" && fl.Field < st.NumFields() {
+			return fname(st.Field(fl.Field)) == field
+		}
+		return false
+	}
 	f := fieldOf(v)
 	return f != nil && fname(f) == field && stripLoad(v) != v && structNameOfAddr(stripLoad(v)) == "Entry"
+}
+
+// max1Of: v is max(1, x) - the builtin, or the explicit form `d := x; if d < 1 { d = 1 }` - and returns x.
+func max1Of(v ssa.Value) (ssa.Value, bool) {
+	if m, ok := v.(*ssa.Call); ok && isBuiltinCall(m, "max") && len(m.Call.Args) == 2 {
+		for i, a := range m.Call.Args {
+			if k, isK := constInt(a); isK && k == 1 {
+				return m.Call.Args[1-i], true
+			}
+		}
+		return nil, false
+	}
+	ph, ok := v.(*ssa.Phi)
+	if !ok || len(ph.Edges) != 2 {
+		return nil, false
+	}
+	for i, e := range ph.Edges {
+		k, isK := constInt(e)
+		if !isK || k != 1 {
+			continue
+		}
+		x := ph.Edges[1-i]
+		// the edge that delivers the constant is taken exactly when x < 1
+		for _, g := range guardsOnEdge(ph.Block().Preds[i], ph.Block()) {
+			b, isB := g.Cond.(*ssa.BinOp)
+			if !isB {
+				continue
+			}
+			kx, okx := constInt(b.Y)
+			if b.X == x && okx {
+				switch {
+				case b.Op == token.LSS && kx == 1 && g.Truth, b.Op == token.LEQ && kx == 0 && g.Truth,
+					b.Op == token.GEQ && kx == 1 && !g.Truth, b.Op == token.GTR && kx == 0 && !g.Truth:
+					return x, true
+				}
+			}
+			ky, oky := constInt(b.X)
+			if b.Y == x && oky {
+				switch {
+				case b.Op == token.GTR && ky == 1 && g.Truth, b.Op == token.GEQ && ky == 0 && g.Truth,
+					b.Op == token.LEQ && ky == 1 && !g.Truth, b.Op == token.LSS && ky == 0 && !g.Truth:
+					return x, true
+				}
+			}
+		}
+	}
+	return nil, false
 }
 
 func ruleC19Fields(cx *Ctx) {
@@ -110,6 +164,28 @@ func ruleC19Load(cx *Ctx) {
 	name := funcName(fn)
 	var now *ssa.Call
 	var set, sea, sra ssa.Instruction
+	// the per-entry step (clock sample, filter, Set, restore) lives in the loader or in a helper it calls per record
+	loopFn := fn
+	isSet := func(in ssa.Instruction) bool {
+		c, ok := in.(*ssa.Call)
+		return ok && c.Call.StaticCallee() != nil && origin(c.Call.StaticCallee()).Name() == "Set" && namedTypeName(origin(c.Call.StaticCallee()).Signature.Recv().Type()) == "Cache"
+	}
+	hasSet := func(f *ssa.Function) bool {
+		found := false
+		allInstrs(f, func(in ssa.Instruction) {
+			if isSet(in) {
+				found = true
+			}
+		})
+		return found
+	}
+	if !hasSet(fn) {
+		allInstrs(loopFn, func(in ssa.Instruction) {
+			if g := calleeOf(in); g != nil && g.Pkg != nil && g.Pkg == loopFn.Pkg && len(origin(g).Blocks) > 0 && hasSet(origin(g)) && fn == loopFn {
+				fn = origin(g)
+			}
+		})
+	}
 	allInstrs(fn, func(in ssa.Instruction) {
 		if c, ok := in.(*ssa.Call); ok {
 			if invokeName(c) == "NowNano" {
@@ -118,6 +194,9 @@ func ruleC19Load(cx *Ctx) {
 			if sc := c.Call.StaticCallee(); sc != nil {
 				switch origin(sc).Name() {
 				case "Set":
+					if !isSet(c) {
+						break
+					}
 					set = c
 				case "SetExpiresAfter":
 					sea = c
@@ -165,7 +244,8 @@ func ruleC19Load(cx *Ctx) {
 	// iteration must start from the zero value - a variable of the loop body, or one reset before every Decode
 	decN, decOK := 0, true
 	var decAt ssa.Instruction
-	allInstrs(fn, func(in ssa.Instruction) {
+	var decLoop map[*ssa.BasicBlock]bool
+	allInstrs(loopFn, func(in ssa.Instruction) {
 		c, ok := in.(*ssa.Call)
 		if !ok || c.Call.StaticCallee() == nil || c.Call.StaticCallee().Name() != "Decode" || len(c.Call.Args) < 2 {
 			return
@@ -186,11 +266,12 @@ func ruleC19Load(cx *Ctx) {
 			return
 		}
 		var loop map[*ssa.BasicBlock]bool
-		for h := range loopHeaders(fn) {
+		for h := range loopHeaders(loopFn) {
 			if l := naturalLoop(h); l[c.Block()] && (loop == nil || len(l) < len(loop)) {
 				loop = l
 			}
 		}
+		decLoop = loop
 		if loop == nil || loop[al.Block()] {
 			return
 		}
@@ -223,19 +304,10 @@ func ruleC19Load(cx *Ctx) {
 		a := callArgs(rs.call)
 		durOK := false
 		if len(a) == 2 {
-			if m, ok := a[1].(*ssa.Call); ok && isBuiltinCall(m, "max") {
-				for _, x := range m.Call.Args {
-					if b, ok := stripConv(x).(*ssa.BinOp); ok && b.Op == token.SUB && entryFieldLoad(b.X, rs.field) && b.Y == ssa.Value(now) {
-						durOK = true
-					}
+			if x, ok := max1Of(a[1]); ok {
+				if b, ok := stripConv(x).(*ssa.BinOp); ok && b.Op == token.SUB && entryFieldLoad(b.X, rs.field) && b.Y == ssa.Value(now) {
+					durOK = true
 				}
-				one := false
-				for _, x := range m.Call.Args {
-					if k, ok := constInt(x); ok && k == 1 {
-						one = true
-					}
-				}
-				durOK = durOK && one
 			}
 		}
 		cx.R.Check(durOK, rRestore, name, rs.what+" duration", cx.P.where(rs.call), "restored duration = max(1, saved deadline - now) with the clock sample of the filter")
@@ -256,7 +328,7 @@ func ruleC19Load(cx *Ctx) {
 	}
 	// bound
 	boundOK, weightOK := false, false
-	allInstrs(fn, func(in ssa.Instruction) {
+	allInstrs(loopFn, func(in ssa.Instruction) {
 		if b, ok := in.(*ssa.BinOp); ok && b.Op == token.LSS {
 			if ph, ok := b.X.(*ssa.Phi); ok {
 				if m, ok := b.Y.(*ssa.Call); ok && isBuiltinCall(m, "min") {
@@ -270,8 +342,69 @@ func ruleC19Load(cx *Ctx) {
 			}
 		}
 	})
-	cx.R.Check(boundOK, rBound, name, "loop bound", cx.P.Pos(fn.Pos()), "loading continues while size < min(saved maximum, the cache's maximum)")
-	cx.R.Check(weightOK, rBound, name, "weight accounting", cx.P.Pos(fn.Pos()), "each loaded entry adds its saved weight to size")
+	if !boundOK || !weightOK {
+		// fallback tier: the counters may be wrapped into a small type or the minimum written out; the decode loop must
+		// still have an exit decided by a value computed from the cache's maximum, the saved maximum and the weights of
+		// the loaded entries
+		var maxSrc, savedSrc, weightSrc []ssa.Value
+		allInstrs(loopFn, func(in ssa.Instruction) {
+			if c, ok := in.(*ssa.Call); ok {
+				if sc := c.Call.StaticCallee(); sc != nil && origin(sc).Name() == "GetMaximum" {
+					maxSrc = append(maxSrc, c)
+				}
+				if sc := c.Call.StaticCallee(); sc != nil && sc.Name() == "Decode" && len(c.Call.Args) == 2 {
+					arg := c.Call.Args[1]
+					if mi, ok := arg.(*ssa.MakeInterface); ok {
+						arg = mi.X
+					}
+					if al, ok := arg.(*ssa.Alloc); ok {
+						if pt, isPtr := al.Type().Underlying().(*types.Pointer); isPtr {
+							if bt, isB := pt.Elem().Underlying().(*types.Basic); isB && bt.Kind() == types.Uint64 {
+								for _, r := range *al.Referrers() {
+									if ld, ok := r.(*ssa.UnOp); ok && ld.Op == token.MUL {
+										savedSrc = append(savedSrc, ld)
+									}
+								}
+							}
+						}
+					}
+				}
+			}
+		})
+		for _, f := range cx.P.ModuleFuncs() {
+			allInstrs(f, func(in ssa.Instruction) {
+				if v, ok := in.(ssa.Value); ok && entryFieldLoad(v, "Weight") {
+					weightSrc = append(weightSrc, v)
+				}
+			})
+		}
+		depends := func(srcs []ssa.Value) bool {
+			if len(srcs) == 0 || decLoop == nil {
+				return false
+			}
+			fl := newFlow(cx.P).From(srcs...)
+			for b := range decLoop {
+				i, isIf := b.Instrs[len(b.Instrs)-1].(*ssa.If)
+				if !isIf {
+					continue
+				}
+				exits := false
+				for _, sc := range b.Succs {
+					if !decLoop[sc] {
+						exits = true
+					}
+				}
+				if exits && fl.Reaches(i.Cond) {
+					return true
+				}
+			}
+			return false
+		}
+		boundOK = depends(maxSrc) && depends(savedSrc)
+		weightOK = depends(weightSrc)
+	}
+	cx.R.Check(boundOK, rBound, name, "loop bound", cx.P.Pos(loopFn.Pos()), "loading continues while size < min(saved maximum, the cache's maximum)")
+	cx.R.Check(weightOK, rBound, name, "weight accounting", cx.P.Pos(loopFn.Pos()), "each loaded entry adds its saved weight to size")
 }
 
 func loopHeaders(fn *ssa.Function) map[*ssa.BasicBlock]bool {
